@@ -117,8 +117,20 @@ impl HandshakeService {
         }
     }
 
+    /// Forget the completed handshake queued for the substream of `peer` in `direction`, if any.
+    ///
+    /// An entry of `ready` belongs to the substream that is registered under its key when it is
+    /// queued. It must not outlive that substream: it would be handed out, together with a
+    /// handshake that was never read from it, for the next substream registered under the key.
+    fn forget(&mut self, peer: &PeerId, direction: Direction) {
+        self.ready
+            .retain(|(ready_peer, ready_direction, _)| !(ready_peer == peer && *ready_direction == direction));
+    }
+
     /// Remove outbound substream from [`HandshakeService`].
     pub fn remove_outbound(&mut self, peer: &PeerId) -> Option<Substream> {
+        self.forget(peer, Direction::Outbound);
+
         self.substreams
             .remove(&(*peer, Direction::Outbound))
             .map(|(substream, _, _)| substream)
@@ -126,6 +138,8 @@ impl HandshakeService {
 
     /// Remove inbound substream from [`HandshakeService`].
     pub fn remove_inbound(&mut self, peer: &PeerId) -> Option<Substream> {
+        self.forget(peer, Direction::Inbound);
+
         self.substreams
             .remove(&(*peer, Direction::Inbound))
             .map(|(substream, _, _)| substream)
@@ -135,6 +149,7 @@ impl HandshakeService {
     pub fn negotiate_outbound(&mut self, peer: PeerId, substream: Substream) {
         tracing::trace!(target: LOG_TARGET, ?peer, "negotiate outbound");
 
+        self.forget(&peer, Direction::Outbound);
         self.substreams.insert(
             (peer, Direction::Outbound),
             (
@@ -149,6 +164,7 @@ impl HandshakeService {
     pub fn read_handshake(&mut self, peer: PeerId, substream: Substream) {
         tracing::trace!(target: LOG_TARGET, ?peer, "read handshake");
 
+        self.forget(&peer, Direction::Inbound);
         self.substreams.insert(
             (peer, Direction::Inbound),
             (
@@ -163,6 +179,7 @@ impl HandshakeService {
     pub fn send_handshake(&mut self, peer: PeerId, substream: Substream) {
         tracing::trace!(target: LOG_TARGET, ?peer, "send handshake");
 
+        self.forget(&peer, Direction::Inbound);
         self.substreams.insert(
             (peer, Direction::Inbound),
             (
